@@ -287,6 +287,41 @@ def rule_r5(F, rep):
                     q.append(m)
         return None
 
+    def path_to(src, dst):
+        if src == dst:
+            return [src]
+        par = {src: None}
+        q = deque([src])
+        while q:
+            n = q.popleft()
+            for m in sorted(z.get(n, ())):
+                if m in par or m in avoid:
+                    continue
+                par[m] = n
+                if m == dst:
+                    p = []
+                    while m is not None:
+                        p.append(m)
+                        m = par[m]
+                    return list(reversed(p))
+                q.append(m)
+        return None
+
+    # the state that runs right after a forced element (the consumer of its value) must run inside the frame too: a consumer
+    # pushed *below* the trace item runs after the frame was popped, and if it leads back to the handler the descent is free
+    ncons = 0
+    for node, cs in sorted(G.consumers.items()):
+        for fsite, cons, ch, csite in cs:
+            ncons += 1
+            cyc = path_to(cons, node) if ch <= 0 and cons not in avoid else None
+            ok = cyc is None
+            rep.ob(R, "consumer|%s|%s" % (node[1], cons[1]), ok)
+            if not ok:
+                rep.violation(R, "%s|consumer-outside-frame|%s" % (node[1], cons[1]),
+                              "%s forces an element of a container it popped (%s); the state that consumes the element's value, "
+                              "%s, is pushed below the trace item (it runs after the frame is popped) and leads back to the handler "
+                              "without a counted frame: %s — nesting is followed without limit"
+                              % (node[1], fsite, cons[1], " -> ".join(x[1].rsplit("::", 1)[-1] for x in cyc + ([node] if cyc[-1] != node else []))), csite)
     nsites = 0
     for node, ds in sorted(G.destr.items()):
         nsites += len(ds)
@@ -303,6 +338,7 @@ def rule_r5(F, rep):
                           "nested value is followed without limit" % (name, unc[0][0], " -> ".join(x[1].rsplit("::", 1)[-1] for x in cyc)),
                           unc[0][0])
     rep.floor(R, nsites, 30, "element-forcing sites on popped container values")
+    rep.floor(R, ncons, 20, "consumers of forced elements")
     rep.floor(R, sum(len(v) for v in G.edges.values()), 1000, "state-push / helper-call edges")
 
 
